@@ -1,8 +1,9 @@
 \* exhaustive check of the required loop (Fixed = TRUE), arrivals interleaved with the slots of a poll
 SPECIFICATION Spec
-INVARIANT OutIsPrefixOfExpected QuiescentMeansDrained SleepingHasWaker DrainedMeansAllDelivered WakerOnlyWhenEmpty SlotsBounded ClosedLosesOnlyLastPoll
+INVARIANT OutIsPrefixOfExpected QuiescentMeansDrained SleepingHasWaker DrainedMeansAllDelivered BoundariesKept WakerOnlyWhenEmpty SlotsBounded ClosedLosesOnlyLastPoll
 CHECK_DEADLOCK FALSE
 CONSTANTS
+  ExactTail = TRUE
   Fixed = TRUE
   ArriveDuringPoll = TRUE
   MayClose = TRUE
